@@ -6,6 +6,7 @@ from .common import hx, sx, parse_sx
 TB = [
     "Coq 8.16.1 kernel; no axioms",
     "Tpl.v: the two pipelines of jinja::_render and set_vars' second render over an ABSTRACT evaluator (Section variables) with three stated laws: text without opening delimiters renders to itself; `{{ x }}` renders to the string x holds; a conservative plain-scalar predicate implies serde_yaml reads the text back as that string. minijinja 2.9 and serde_yaml 0.9 are oracles: the laws are what this run validates",
+    "Omit.v: mirror of jinja::render_map (entries rendered in order, each visible to the later ones, an entry that yields the placeholder skipped); how one string renders is its oracle, instantiated for the correspondence with text / reference / omit / default(omit)",
     "python string generator, one rash run per probe (real binary, --output raw), byte-exact comparison of the file written by copy and of the argv received by a helper process",
 ]
 
@@ -181,13 +182,152 @@ def c12(run, replay=None):
         if p.returncode != 0 or got != (v.encode(), v[::-1].encode(), b"rc=0"):
             run.violation("command result not reported exactly / omit: value %r gave %r (rc=%s, stderr=%s)" % (v, got, p.returncode, p.stderr.decode("utf-8", "replace")[-200:]),
                           dict(value=v, observed=repr(got)))
-    run.coverage.update(evaluations=len(probes) + nex, distinct_nontrivial=len(nontrivial),
+    nomit, omit_dist = omit_checks(run)
+    run.coverage.update(evaluations=len(probes) + nex + nomit, distinct_nontrivial=len(nontrivial), omit_mappings=omit_dist,
                         rule="strings from a metacharacter-weighted grammar (quotes, newlines, template / YAML / shell metacharacters, blanks, numerals, booleans, null, empty, multi-byte UTF-8) arriving in an environment variable, "
                              "sent through each channel (direct, loop item, task vars, set_vars, register of a command's output) into copy (file bytes compared) and a command argv (received arguments compared); "
-                             "plus command stdout/stderr/rc reported exactly and `omit`; non-trivial = (value, channel) pairs whose value is NOT a plain YAML string by Coq's plain_string",
+                             "plus command stdout/stderr/rc reported exactly; plus `omit`: random mappings (task vars, set_vars, mapping loop items) whose entries are text, references to earlier entries, `{{ omit }}` or `default(omit)`, "
+                             "compared with the extracted mirror of jinja::render_map (Omit.v), re-run without an omitted entry, and every order of command / copy parameters with two omitted ones; non-trivial = (value, channel) pairs whose value is NOT a plain YAML string by Coq's plain_string",
                         samples=[dict(value=v, channel=ch) for v, ch in probes[5:8]], traces_validated_against_impl=len(probes),
                         trusted_base=TB, outcome_distribution=dist, exhaustive=False)
     run.assumptions = ["values are valid UTF-8 without NUL (environment variables)", "one probe per rash process"]
 
+
+
+# ---------------------------------------------------------------- omit
+OKEYS = ["ka", "kb", "kc", "kd", "ke", "host"]
+
+
+def omit_tpl(e):
+    if e[0] == 'lit':
+        return e[1]
+    if e[0] == 'var':
+        return "{{ %s }}" % e[1]
+    if e[0] == 'omit':
+        return "{{ omit }}"
+    return "{{ %s | default(omit) }}" % e[1]
+
+
+def omit_script(channel, entries):
+    """a mapping whose entries may yield `omit`, as task vars / a set_vars value list / a mapping loop item; one line
+    `R k=v ...` shows every key afterwards (`-` = not defined)"""
+    m = "".join("    %s: %s\n" % (k, json.dumps(omit_tpl(e))) for k, e in entries)
+    show = " ".join("%s={{ %s | default('-') }}" % (k, k) for k in OKEYS)
+    s = "#!/usr/bin/env rash\n- set_vars:\n    host: h1\n"
+    if channel == "vars":
+        s += "- debug:\n    msg: \"R %s\"\n  vars:\n%s" % (show, m)
+    elif channel == "set_vars":
+        s += "- set_vars:\n%s- debug:\n    msg: \"R %s\"\n" % (m, show)
+    else:
+        showi = " ".join("%s={{ item.%s | default('-') }}" % (k, k) for k in OKEYS)
+        s += "- debug:\n    msg: \"R %s\"\n  loop:\n    - %s\n" % (showi, json.dumps({k: omit_tpl(e) for k, e in entries}))
+    return s
+
+
+def omit_model(entries):
+    o = C.run_oracle([sx(["rendermap", ["store", [hx("host"), hx("h1")]],
+                          ["entries"] + [[hx(k)] + ([e[0], hx(e[1])] if e[0] != 'omit' else ['omit']) for k, e in entries]])])[0]
+    r = parse_sx(o)
+    if r[0] == "err":
+        return None
+    return {bytes.fromhex(k[1:]).decode(): bytes.fromhex(v[1:]).decode() for k, v in r[1:]}
+
+
+def omit_checks(run):
+    """`omit` at every position of a mapping: (a) the mirror of jinja::render_map (Omit.v) predicts which keys exist
+    afterwards and with which values; (b) the theorem's statement on the real binary: the run with an omitted entry and
+    the run of the same script without that entry show the same; (c) module parameters in every order"""
+    rng = run.rng
+    n = 60 if run.tier == "quick" else 1200
+    root = os.path.join(C.SANDBOX, "vo")
+    shutil.rmtree(root, ignore_errors=True)
+    os.makedirs(root)
+    nrun = 0
+    nbad = 0
+    dist = {}
+
+    def rash(text):
+        f = os.path.join(root, "main.rh")
+        open(f, "w").write(text)
+        p = subprocess.run([C.RASH, "--output", "raw", f], capture_output=True, timeout=20, cwd=root)
+        return p.returncode, p.stdout.decode("utf-8", "replace"), p.stderr.decode("utf-8", "replace")[-200:]
+
+    def shown(out):
+        for line in out.split("\n"):
+            if line.startswith("R "):
+                return dict(kv.split("=", 1) for kv in line[2:].split(" "))
+        return None
+
+    for i in range(n):
+        keys = rng.sample(OKEYS, rng.randint(1, 5))
+        entries = []
+        for k in keys:
+            r = rng.random()
+            if r < 0.3:
+                e = ('omit',)
+            elif r < 0.5:
+                e = ('lit', rng.choice(["x", "y1", "val"]))
+            elif r < 0.72:
+                e = ('var', rng.choice(keys + ["host", "host", "nope"]))
+            else:
+                e = ('defomit', rng.choice(keys + ["host", "nope", "nope"]))
+            entries.append((k, e))
+        channel = rng.choice(["vars", "set_vars", "loop_map"])
+        want = omit_model(entries)
+        rc, out, err = rash(omit_script(channel, entries))
+        nrun += 1
+        got = shown(out) if rc == 0 else None
+        if want is not None:
+            if channel == "loop_map":
+                full = {k: want.get(k, "-") for k in OKEYS}
+            else:
+                full = {k: want.get(k, "h1" if k == "host" else "-") for k in OKEYS}
+        else:
+            full = None
+        kind = "fails" if want is None else ("omits" if any(e[0] == 'omit' or (e[0] == 'defomit' and e[1] not in want and e[1] != 'host') for _, e in entries) else "plain")
+        dist[kind] = dist.get(kind, 0) + 1
+        desc = dict(channel=channel, entries=entries, script=omit_script(channel, entries), model=full, observed=dict(rc=rc, shown=got, stderr=err))
+        if got != full:
+            nbad += 1
+            if nbad > 4:
+                continue
+            run.violation("omit: mapping %r through %s: the mirror of render_map says %r, rash shows %r (rc=%r)" % (entries, channel, full, got, rc), desc)
+            continue
+        # the theorem on the implementation: dropping an entry that was omitted changes nothing
+        if want is not None:
+            gone = [k for k, e in entries if k not in want]
+            if gone and len(entries) > 1:      # (an empty mapping is not a valid vars / set_vars value)
+                k0 = rng.choice(gone)
+                rc2, out2, err2 = rash(omit_script(channel, [(k, e) for k, e in entries if k != k0]))
+                nrun += 1
+                if rc2 != rc or shown(out2) != got:
+                    run.violation("omit: removing the omitted entry %s from %r changes the result: %r vs %r" % (k0, entries, got, shown(out2)), desc)
+    # module parameters: the omitted one first, in the middle, last
+    import itertools
+    marker = os.path.join(root, "d")
+    os.makedirs(marker, exist_ok=True)
+    base = [("chdir", json.dumps(marker)), ("cmd", '"pwd"'), ("transfer_pid", '"{{ omit }}"'), ("strip_empty_ends", '"{{ nope | default(omit) }}"')]
+    for perm in itertools.permutations(base):
+        text = "#!/usr/bin/env rash\n- command:\n" + "".join("    %s: %s\n" % kv for kv in perm)
+        rc, out, err = rash(text)
+        nrun += 1
+        if rc != 0 or out.strip() != os.path.realpath(marker):
+            run.violation("omit among the parameters of command (%s): rc=%r stdout=%r stderr=%r" % (", ".join(k for k, _ in perm), rc, out, err), dict(script=text))
+    basec = [("content", '"payload"'), ("dest", json.dumps(os.path.join(root, "cp"))), ("mode", '"{{ omit }}"'), ("src", '"{{ nope | default(omit) }}"')]
+    for perm in itertools.permutations(basec):
+        try:
+            os.remove(os.path.join(root, "cp"))
+        except FileNotFoundError:
+            pass
+        text = "#!/usr/bin/env rash\n- copy:\n" + "".join("    %s: %s\n" % kv for kv in perm)
+        rc, out, err = rash(text)
+        nrun += 1
+        try:
+            b = open(os.path.join(root, "cp"), "rb").read()
+        except FileNotFoundError:
+            b = None
+        if rc != 0 or b != b"payload":
+            run.violation("omit among the parameters of copy (%s): rc=%r file=%r stderr=%r" % (", ".join(k for k, _ in perm), rc, b, err), dict(script=text))
+    return nrun, dist
 
 PROPS = {"C12": c12}
